@@ -760,6 +760,7 @@ pub fn def() -> PropDef {
         needs_pairing: false,
         subs: vec![
             Box::new(crate::engine::EnumSub { name: "long-history", rule: super::longhist::RULE, run: run_long_history, replay: super::longhist::replay, exhaustive: false }),
+            Box::new(crate::engine::EnumSub { name: "two-input-bursts", rule: super::longhist::BURST_RULE, run: run_two_input_bursts, replay: super::longhist::replay_burst, exhaustive: false }),
             Box::new(Sub { name: "g1-predicate", rule: "G1Affine::in_subgroup on arbitrary coordinate pairs vs model predicate", quick: 8_000, thorough: 120_000, strategy: || boxed(pred_strategy(0)), check: check_pred_any }),
             Box::new(Sub { name: "g2-predicate", rule: "G2Affine::in_subgroup on arbitrary coordinate pairs vs model predicate", quick: 3_000, thorough: 40_000, strategy: || boxed(pred_strategy(1)), check: check_pred_any }),
             Box::new(Sub { name: "predicate-histories", rule: "2..6 calls on one thread around ONE base point: checked / unchecked decoding and deserialization of its encoding, the predicate on the point itself, then the predicate on pairs derived from it ((x, y+d), (x, -y), (x+d, y), (beta x, y), (x, d), (d, y), (y, x), infinity flag set); every outcome compared with the definition (no dependence on what was accepted before)", quick: 1_500, thorough: 30_000, strategy: || boxed(pred_hist_strategy()), check: check_pred_hist_any }),
